@@ -524,10 +524,36 @@ def shadow_hash(rep, idx, rule):
     uses_R_e = ir.mentions(e, R) or ir.mentions(e, M)
     wrong_mod = [x for x in ir.walk(e) if x[0] == 'bin' and x[1] == '%' and x[3] != R] + \
                 [x for x in ir.walk(d) if x[0] == 'bin' and x[1] == '%' and x[3] != R and x[3] != dec.parse("self.size")]
+    # one of the two uses the power-of-two register size and the other wraps or masks with another size of the model (the raw span
+    # `stop - start`, whose `- 1` is no bit mask unless the span is a power of two; the shadow size, which is not the register's)
+    span = dec.parse("reg_range.stop - reg_range.start")
+    other_sizes = {ir.show(span): "the raw span stop - start (as `span - 1` it is a bit mask only for power-of-two spans: a register of 3, 5, "
+                                  "6 ... addresses folds two of its chunks onto one offset)",
+                   ir.show(dec.parse("self._size")): "the shadow size (a register smaller than the shadow is wrapped over addresses that are not its own)",
+                   ir.show(dec.parse("self.size")): "the shadow size (a register smaller than the shadow is wrapped over addresses that are not its own)"}
+
+    def masks_of(x_):
+        out = set()
+        for y in ir.walk(x_):
+            if y[0] == 'bin' and y[1] == '%':
+                out.add(ir.show(y[3]))
+            if y[0] == 'lin' and y[1] == -1 and len(y[2]) >= 1 and all(cf in (1, -1) for _, cf in y[2]):
+                t_ = y[2][0][0] if len(y[2]) == 1 and y[2][0][1] == 1 else dec.norm(('lin', 0, y[2]))
+                out.add(ir.show(t_))                                # (size - 1) used as a mask
+        return out
+    named_size = None
+    if uses_R_d != uses_R_e:
+        side, ex = ("decode_address", d) if not uses_R_d else ("encode_offset", e)
+        # the low bits: where the address / offset itself is masked
+        hit = [why for k_, why in other_sizes.items() if k_ in masks_of(ex)]
+        lowmask = [y for y in ir.walk(ex) if y[0] in ('nary', 'bin') and y[1] in ('&', '%') and
+                   (ir.mentions(y, ('name', 'addr')) or ir.mentions(y, ('name', 'offset')))]
+        if hit and lowmask and any(k_ in masks_of(y) for y in lowmask for k_ in other_sizes):
+            named_size = f"{side} reduces the address with {hit[0]}, while its counterpart uses 2**ceil_log2(stop - start): the two are no longer inverse to each other"
     rep.form(uses_R_d and uses_R_e, rule, enc.fi.site,
              "decode_address and encode_offset use the same power-of-two register size 2**ceil_log2(stop - start)",
              f"decode uses it: {uses_R_d}; encode uses it: {uses_R_e}",
-             wrong=(f"a different modulus is used: {ir.show(wrong_mod[0][3])[:60]}" if wrong_mod else None))
+             wrong=(f"a different modulus is used: {ir.show(wrong_mod[0][3])[:60]}" if wrong_mod else named_size))
     plain = {None, ('name', 'addr'), ('name', 'offset'), dec.parse("reg_range.start"), dec.parse("reg_range.stop")}
 
     def reduced(m):
